@@ -65,10 +65,10 @@ def gen_program(rng, nmax=8, serial_bias=False, fail_rate=0.35):
         else:
             opts = ["panicerr", "panicfatal", "panicval"]
             if kind in ERR_KINDS:
-                opts += ["err", "err", "fatal", "fatal", "errwrap", "errzero"]
+                opts += ["err", "err", "fatal", "fatal", "errwrap", "errzero", "errnilptr"]
             t = rng.choice(opts)
             res = {"t": t, "code": rng.choice(CODES) if t in ("fatal", "panicfatal", "errwrap") else 1}
-            if rng.random() < 0.25 and t not in ("errwrap", "errzero"):
+            if rng.random() < 0.25 and t not in ("errwrap", "errzero", "errnilptr"):
                 res["silent"] = True        # the failure carries an EMPTY message: it is a failure all the same
         nd = {"kind": kind, "slot": slot, "calls": calls, "result": res}
         if args is not None:
@@ -114,6 +114,8 @@ def outcome_term(k, r):
         return "(Err 1 [%d])" % k
     if t == "errwrap":
         return "(Err 1 [%d])" % k        # an ordinary error WRAPPING mg.Fatal(code): its status is 1, the wrapped code is not looked for
+    if t == "errnilptr":
+        return "(Err 1 [])"              # a typed-nil pointer error: non-nil, status 1, empty message
     if t == "errzero":
         return "(Err 0 [%d])" % k        # a non-nil error whose ExitStatus() is 0: a failure all the same, with status 0
     if t == "fatal":
